@@ -175,6 +175,8 @@ func (b *Built) build(s *Spec) (res error) {
 		return errors.WithSecondaryError(c, xs[0])
 	case "combine":
 		return errors.CombineErrors(c, xs[0])
+	case "wrapferr":
+		return errors.Wrapf(c, "lit "+esc(S(0))+" e=%v", xs[0])
 	case "handled":
 		return errors.Handled(c)
 	case "handledmsg":
